@@ -404,6 +404,17 @@ def carve(fn, from_rx, to_rx, include_to=True):
         raise LostAnchor('carve to %r not found in fn %s' % (to_rx, fn.name))
     s = a[0].start()
     e = a[0].start() + (b[0].end() if include_to else b[0].start())
+    # a carve never splits an if / else-if / else chain: when the carved text ends with the closing brace of a
+    # block and the next token is `else`, the following branches belong to the same statement (a change that
+    # appends a branch must stay inside the carved text)
+    if include_to:
+        mm = mask(body)
+        while mm[:e].rstrip().endswith('}'):
+            mo = re.match(r'\s*else\b[^{;]*\{', mm[e:])
+            if not mo:
+                break
+            ob = e + mo.end() - 1
+            e = match_close(mm, ob) + 1
     # extend to whole lines
     s = body.rfind('\n', 0, s) + 1
     return body[s:e]
